@@ -120,10 +120,10 @@ def internInps (l : List Inp) : List Inp :=
 def buildAuto (σ : Schedule) (r : Regex) (symOf : Nat → Option Inp) : Option Auto :=
   let inputs := internInps ((List.range r.inputs.length).filterMap symOf)
   let start := normSet r.first
-  -- every new set costs one step; there are at most 2^n sets, but each step of the loop pops
-  -- one set and each set is pushed once: the fuel below is generous for the explored sizes and
-  -- the theorem is stated for `some`.
-  let fuel := 2 ^ (min r.inputs.length 16) + r.inputs.length + 8
+  -- every round of the loop pops one set of positions and every set is pushed once, when it gets its
+  -- id; the sets are subsets of the positions 0 … n (n = the end marker), so 2^(n+1) rounds suffice
+  -- (the loop stops as soon as the work-list is empty; the number is only a bound)
+  let fuel := 2 ^ (r.inputs.length + 1) + 8
   match buildLoop σ r.follow symOf (indexed inputs) fuel 0
       { ids := [(start, 1)], next := 2, work := [start], trans := [] } with
   | none => none
